@@ -53,6 +53,38 @@ func (g *c18gen) pred() (string, func(map[string]interface{}) bool) {
 		return fmt.Sprintf("value + value > %d", n), func(t map[string]interface{}) bool { return 2*t["value"].(int64) > n }
 	case 2:
 		return "host = region", func(t map[string]interface{}) bool { return t["host"] == t["region"] }
+	case 4: // a constant side written as arithmetic over whole and fractional numbers: folded, never changed in value
+		lits := []string{"1", "2", "3", "0.5", "2.5", "1.0", "4.25"}
+		vals := []float64{1, 2, 3, 0.5, 2.5, 1.0, 4.25}
+		i, j := g.r.intn(len(lits)), g.r.intn(len(lits))
+		op := pick(g.r, []string{"+", "-", "*"})
+		var c float64
+		switch op {
+		case "+":
+			c = vals[i] + vals[j]
+		case "-":
+			c = vals[i] - vals[j]
+		default:
+			c = vals[i] * vals[j]
+		}
+		cmp := pick(g.r, []string{">", "<=", "<", ">="})
+		lhs := pick(g.r, []string{"value", "abs2(value)"})
+		text := fmt.Sprintf("%s %s %s %s %s", lhs, cmp, lits[i], op, lits[j])
+		if lhs != "value" {
+			return text, nil
+		}
+		return text, func(t map[string]interface{}) bool {
+			v := float64(t["value"].(int64))
+			switch cmp {
+			case ">":
+				return v > c
+			case "<=":
+				return v <= c
+			case "<":
+				return v < c
+			}
+			return v >= c
+		}
 	case 3: // type-annotated references: the annotation is part of the predicate
 		switch g.r.intn(4) {
 		case 0:
